@@ -109,7 +109,42 @@ class BinsNeverHide(Case):
         return dict(s=s, e=e, S=S_, E=E_)
 
 
-CASES = [BinsOne("bed"), BinsOne("gff"), BinsNeverHide("bed"), BinsNeverHide("gff")]
+class StoredBins(Case):
+    """bin stored at construction on the remaining interval classes = UCSC bin of the chromosome span (Feature /
+    Transcript / CDS: c14_bed; Gene / FeatureIntervalCollection: c20_aggregates): VariantInterval,
+    and AnnotationCollection (explicit bounds or span of its
+    children)."""
+    props = ("C16",)
+    name = "stored bin of VariantInterval / AnnotationCollection = bins(chromosome span)"
+    func = "gene.variants.VariantInterval.__init__"
+    module = "gene.collections"
+    call = ("(lambda v, w: (v.bin, w.bin, "
+            "0, "
+            "AnnotationCollection(variant_collections=[VariantIntervalCollection([v, w])], start=lo, end=hi).bin))"
+            "(VariantInterval(a, b, 'A', 'snv'), VariantInterval(c, d, 'AC', 'ins'))")
+    ensures = {
+        "variant": lambda i, r: r[0] == spec_bin(i.a, i.b, 0),
+        "second-variant": lambda i, r: r[1] == spec_bin(i.c, i.d, 0),
+        "annotation-collection-explicit-bounds": lambda i, r: r[3] == spec_bin(i.lo, i.hi, 0),
+    }
+
+    def inputs(self, S):
+        a, b, c, d, lo, hi = (S.int(n) for n in ("a", "b", "c", "d", "lo", "hi"))
+        S.assume(And(0 <= lo, lo <= a, a < b, b <= c, c < d, d <= hi))
+        return NS(a=a, b=b, c=c, d=d, lo=lo, hi=hi, VariantInterval=S.cls("gene.variants.VariantInterval"),
+                  VariantIntervalCollection=S.cls("gene.variants.VariantIntervalCollection"),
+                  AnnotationCollection=S.cls("gene.collections.AnnotationCollection"))
+
+    def samples(self, rng):
+        base = rng.choice([0, 5, 131070, 2 ** 20 - 3])
+        a = base + rng.randint(0, 3)
+        b = a + rng.randint(1, 3)
+        c = b + rng.choice([0, 1, 131072])
+        d = c + rng.randint(1, 3)
+        return dict(a=a, b=b, c=c, d=d, lo=max(0, a - rng.randint(0, 3)), hi=d + rng.choice([0, 2, 131072]))
+
+
+CASES = [BinsOne("bed"), BinsOne("gff"), BinsNeverHide("bed"), BinsNeverHide("gff"), StoredBins()]
 
 CANARIES = [
     dict(name="bins: FIRST_SHIFT 16", props=("C16",), file="inscripta/biocantor/util/bins.py",
